@@ -349,3 +349,14 @@ for _p in ("C03", "C04", "C06"):
     PROPS[_p]["rule"] = PROPS[_p]["rule"] + IOF
     PROPS[_p]["assumptions"] = PROPS[_p]["assumptions"] + ["the injected I/O error is the only one (DESIGN.md 12.5): after it the independent decoder tolerates an invalid TAIL of a segment and Compact may fail - both are what the unchanged code does after a failed append, and no listed property covers behaviour after a failed file-system call"]
     PROPS[_p]["must_reach"]["quick"] = PROPS[_p]["must_reach"]["quick"] + ["write_failed_by_injected_error"]
+
+PROPS["C16"]["must_reach"]["quick"] = PROPS["C16"]["must_reach"]["quick"] + ["segment_near_4gib"]
+PROPS["C16"]["rule"] = PROPS["C16"]["rule"] + ". The big worker also runs one history with the DEFAULT segment limit (4 GiB - 1) on a current segment made 50-450 bytes short of it (a procedural zero middle part the clean Open never reads): the records that follow exceed the remaining space, must go to a new segment and read back, also after a clean restart; no segment may exceed 2^32 - 1 bytes"
+
+PROPS["C05"]["rule"] = PROPS["C05"]["rule"] + IOF
+PROPS["C05"]["assumptions"] = PROPS["C05"]["assumptions"] + ["injected I/O error on a record append in the sequential quarter of the runs (DESIGN.md 12.5)"]
+PROPS["C06"]["rule"] = PROPS["C06"]["rule"] + " In 1 of 4 sequential runs one fsync of a segment fails with an injected EIO: a Sync (or sync-after-write Put/Delete) that returned the error is not a sync point, the next successful one must be."
+PROPS["C06"]["must_reach"]["quick"] = PROPS["C06"]["must_reach"]["quick"] + ["sync_failed_by_injected_error"]
+PROPS["C02"]["rule"] = PROPS["C02"]["rule"] + "; in 1 of 4 runs a write to a metadata file fails (injected ENOSPC) during one Close: a Close that reports the error is followed by the death of the process and a recovering Open that must find every acknowledged write; a Close that reports success is under the clean-restart oracle"
+PROPS["C02"]["must_reach"]["quick"] = PROPS["C02"]["must_reach"]["quick"] + ["reopen_after_failed_close"]
+PROPS["C02"]["must_reach"]["thorough"] = PROPS["C02"]["must_reach"]["thorough"] + ["reopen_after_failed_close"]
